@@ -51,6 +51,11 @@ type Zlisp struct {
 
 	// API use, since infix is already default at repl
 	WrapLoadExpressionsInInfix bool
+
+	// sandboxed is set by NewZlispSandbox. A sandboxed interpreter
+	// refuses the forms and builders that reach outside the
+	// process (include, sys, import), also after StandardSetup().
+	sandboxed bool
 }
 
 // allow clients to establish a callback to
@@ -89,12 +94,17 @@ func (env *Zlisp) Close() error {
 // NewZlispSandbox returns a new *Zlisp instance that does not allow the
 // user to get to the outside world
 func NewZlispSandbox() *Zlisp {
-	return NewZlispWithFuncs(SandboxSafeFunctions())
+	return newZlisp(SandboxSafeFunctions(), true)
 }
 
 // NewZlispWithFuncs returns a new *Zlisp instance with access to only the given builtin functions
 func NewZlispWithFuncs(funcs map[string]ZlispUserFunction) *Zlisp {
+	return newZlisp(funcs, false)
+}
+
+func newZlisp(funcs map[string]ZlispUserFunction, sandboxed bool) *Zlisp {
 	env := new(Zlisp)
+	env.sandboxed = sandboxed
 	env.baseTypeCtor = MakeUserFunction("__basetype_ctor", BaseTypeConstructorFunction)
 	env.parser = env.NewParser()
 	env.datastack = env.NewStack(DataStackSize)
@@ -144,6 +154,7 @@ func NewZlispWithFuncs(funcs map[string]ZlispUserFunction) *Zlisp {
 
 func (env *Zlisp) Clone() *Zlisp {
 	dupenv := new(Zlisp)
+	dupenv.sandboxed = env.sandboxed
 	dupenv.parser = env.parser
 	dupenv.baseTypeCtor = env.baseTypeCtor
 	dupenv.datastack = env.datastack.Clone()
@@ -180,6 +191,7 @@ func (env *Zlisp) Clone() *Zlisp {
 
 func (env *Zlisp) Duplicate() *Zlisp {
 	dupenv := new(Zlisp)
+	dupenv.sandboxed = env.sandboxed
 	dupenv.parser = env.parser
 	dupenv.baseTypeCtor = env.baseTypeCtor
 	dupenv.datastack = dupenv.NewStack(DataStackSize)
